@@ -428,9 +428,43 @@ EXTRA5 = {
            "a stream that is still up. The locks of shard_manager.go and proxy_streams.go park as well. Found and repaired: an "
            "intra-proxy stream on an instance without intra-proxy manager crashed the process (7a046f5).",
 }
+# additions of the sixth seeding round
+EXTRA6 = {
+    "C03": " Source-initiated streams of the environment acknowledge whatever reaches them, so a watermark or task handed to a "
+           "receiver of another cluster pair is seen.",
+    "C04": " Fault added: the Send of the intra-proxy hop fails once (two proxy instances).",
+    "C05": " Targets may acknowledge eagerly (while the batch is still inside Send) at both routing levels; the sender-table and "
+           "single-target oracles are shared with C01 and C04.",
+    "C06": " Ending kind added: the half-close towards the source blocks until the stream's context ends. Found and repaired: the "
+           "helper goroutine that calls CloseSend leaked when its one-second guard expired (7db87b6).",
+    "C07": " DescribeCluster is also asked with a cluster name set.",
+    "C08": " Scripts added: watermark broadcast while the target stream shuts down; a late target got the replay and then reconnects.",
+    "C09": " Conformance run: a claim whose local listeners are slow while the other instance claims the same shard - the newest claim "
+           "must own it after the listeners return. Routing part: forwarded acknowledgements through the real "
+           "intraProxyStreamSender.recvAck loop x {local stream present, removed after the first, closed, absent} x {remote owner with "
+           "a stream, owner without peer state, unknown}: handed to the local stream, never forwarded again, the stream ends with an "
+           "error at the first acknowledgement nobody takes.",
+    "C10": " The manager's own Start runs (status ticker goroutine); action minute (a quiet minute of virtual time); capacity probes "
+           "before start; the mux-manager and provider locks park at the macro level, a goroutine waiting for a lock nobody releases "
+           "is a verdict.",
+    "C11": " The manager's own Start runs (status ticker goroutine); oracle: an RPC issued when no session is left is reported "
+           "Unavailable, it does not wait.",
+    "C12": " An empty batch in front of the batch on the path.",
+    "C13": " An empty batch in front of the batch on the path; stream cases through the real TranslationInterceptor.InterceptStream "
+           "(ordinary streams translated both ways, streams forwarded between proxy instances untouched).",
+    "C14": " Sibling events whose search-attribute container matches nothing, before and after the event on the path; identity pairs "
+           "first in the wiring configuration.",
+    "C15": " The debug page is rendered before the calls of every configuration (reading the configuration must not change the policy).",
+    "C16": " An empty batch in front of the batch on the path.",
+    "C19": " Credentials that expired 30 s ago or become valid in 10 minutes are refused; the CA file removed after the listener "
+           "started does not change who is admitted.",
+    "C20": " Oracles added: a stream the upstream refuses must end; no stream outlives its connection.",
+}
 for _k, _v in EXTRA.items():
     CLAIMED[_k]["text"] += _v
 for _k, _v in EXTRA5.items():
+    CLAIMED[_k]["text"] += _v
+for _k, _v in EXTRA6.items():
     CLAIMED[_k]["text"] += _v
 
 
